@@ -195,12 +195,17 @@ def lbFin (x : LbIn) (isCPeaFWH forceNoBreak : Bool) (res : Nat × Nat) : Nat ×
     else res.1
   (newState, if forceNoBreak then LineDontBreak else res.2)
 
-/-- `transitionLineBreakState` on the class signature; `nextNU` is the LB25 look-ahead result -/
-def transL (state0 : Option Nat) (x : LbIn) (nextNU : Bool) : Nat × Nat :=
+/-- the flag extraction at the top of `transitionLineBreakState`:
+(state without the two flag bits, isCPeaFWH, forceNoBreak) -/
+def lbStrip (state0 : Option Nat) : Option Nat × Bool × Bool :=
   let isCPeaFWH := match state0 with | none => false | some s => s &&& lbCPeaFWHBit != 0
   let state1 := if isCPeaFWH then state0.map (fun s => s &&& (lbCPeaFWHBit ^^^ 0xFFFFFFFF)) else state0
   let forceNoBreak := match state1 with | none => false | some s => s &&& lbZWJBit != 0
   let state := if forceNoBreak then state1.map (fun s => s &&& (lbZWJBit ^^^ 0xFFFFFFFF)) else state1
+  (state, isCPeaFWH, forceNoBreak)
+
+/-- `transitionLineBreakState` after the flag extraction -/
+def transLCore (state : Option Nat) (isCPeaFWH forceNoBreak : Bool) (x : LbIn) (nextNU : Bool) : Nat × Nat :=
   let nextProperty := x.prop
   lbFin x isCPeaFWH forceNoBreak <|
   if nextProperty == prZWJ || nextProperty == prCM then
@@ -239,6 +244,11 @@ def transL (state0 : Option Nat) (x : LbIn) (nextNU : Bool) : Nat × Nat :=
       (lbIDEM, LineDontBreak)
     else if newState == lbIDEM && x.extPicCn then (lbExtPicCn, lineBreak)
     else (newState, lineBreak)
+
+/-- `transitionLineBreakState` on the class signature; `nextNU` is the LB25 look-ahead result -/
+def transL (state0 : Option Nat) (x : LbIn) (nextNU : Bool) : Nat × Nat :=
+  let s := lbStrip state0
+  transLCore s.1 s.2.1 s.2.2 x nextNU
 
 /-- `transitionLineBreakState(state, r, b, str)` -/
 def transitionLineBreakState (state : Option Nat) (r : Nat) (rest : List Nat) : Nat × Nat :=
